@@ -484,6 +484,10 @@ func checkC14(p *Prog, res *Result, tier string) {
 			(o.Rule == "C11-R2" && (strings.Contains(o.Construct, "Commit") || strings.Contains(o.Construct, "memkv") || strings.Contains(o.Construct, "election"))) {
 			res.add("C14-R5", o.Rule+" "+o.Construct, o.Status, o.Pos, o.Detail)
 		}
+		// .. and a read that failed is not taken for "the key is absent" (C11-R11 on the conditional operations)
+		if o.Rule == "C11-R11" && (strings.Contains(o.Construct, "PutIfNotExist") || strings.Contains(o.Construct, "CAS")) {
+			res.add("C14-R5", o.Rule+" "+o.Construct, o.Status, o.Pos, o.Detail)
+		}
 	}
 	// R9: what a candidate observed stays what it observed (C11-R13)
 	for _, o := range sub.Obls {
